@@ -78,6 +78,7 @@ type GenCfg struct {
 	Composite   bool
 	CompositeDV bool // the composite field is indexed with doc values
 	FlipOpts    bool // single field instances deviate from the options of their field
+	BadSyn      bool // zero-length synonyms are generated: such a thesaurus cannot be loaded
 	IDSpace     int
 	MaxToks     int
 	BigVals     bool
@@ -138,6 +139,11 @@ func genCfg(c *Chooser, wantSyn, wantVec bool) *GenCfg {
 		if many && i == 7 {
 			p.Name = "f7_" + strings.Repeat("long", 40)
 		}
+		if !many && c.Prob(1, 6, "cfg.oddname") {
+			// names that sort before "_id" bytewise (capitals, digits, "_a", "_ID"), a
+			// non-ASCII one, and one that is a prefix of the usual names
+			p.Name = []string{"Title", "0num", "_a", "_ID", "Z", "\u00c9t\u00e9", "f", "_"}[c.Choose(8, "cfg.oddnamev")] + strconv.Itoa(i)
+		}
 		p.Opts = index.IndexField
 		if c.Choose(4, "cfg.stored") != 0 {
 			p.Opts |= index.StoreField
@@ -193,6 +199,11 @@ func genCfg(c *Chooser, wantSyn, wantVec bool) *GenCfg {
 				}
 			}
 			g.SynFields = append(g.SynFields, p)
+		}
+		if !many && c.Prob(1, 8, "cfg.synclash") {
+			// an ordinary field carries the name of a thesaurus: the two live in
+			// different sections of the segment and do not disturb each other
+			g.Fields[c.Choose(len(g.Fields), "cfg.synclashf")].Name = g.SynFields[0].Name
 		}
 	}
 	if wantVec {
@@ -425,9 +436,11 @@ func genSynDoc(c *Chooser, g *GenCfg, id string) DocSpec {
 			ss := map[string]bool{}
 			for j := 0; j < ns; j++ {
 				s := p.Vocab[c.Choose(len(p.Vocab), "syn.syn")]
-				if s == "" {
+				if s == "" && !g.BadSyn {
 					// the empty string is a legal term (dictionary key) but not a legal
-					// synonym: the reader rejects a synonym of length 0 by design
+					// synonym: the reader rejects a synonym of length 0 by design. Worlds
+					// with BadSyn keep it: their thesaurus then fails to load, every time
+					// and for every caller alike (error paths of the thesaurus cache)
 					s = "~e"
 				}
 				if !ss[s] {
